@@ -185,7 +185,11 @@ Near(p, P, e, tol, d) ==
   ELSE IF d = 0 THEN TRUE
   ELSE IF SurePt(p, P[1], e, tol) \/ SurePt(p, P[Len(P)], e, tol) THEN TRUE
   ELSE LET h == Halves(P) e2 == e + EvErr(P)
-       IN Near(p, h[1], e2, tol, d - 1) \/ Near(p, h[2], e2, tol, d - 1)
+           l1 == Abs(p[1] - P[1][1]) + Abs(p[2] - P[1][2])
+           l2 == Abs(p[1] - P[Len(P)][1]) + Abs(p[2] - P[Len(P)][2])
+       IN IF l1 <= l2      \* search the half on the nearer side first (the disjunction is lazy)
+          THEN Near(p, h[1], e2, tol, d - 1) \/ Near(p, h[2], e2, tol, d - 1)
+          ELSE Near(p, h[2], e2, tol, d - 1) \/ Near(p, h[1], e2, tol, d - 1)
 
 NearPath(p, Ps, e, tol) == \E i \in 1..Len(Ps) : Near(p, Ps[i], e, tol, DEPTH)
 
